@@ -176,6 +176,12 @@ pub(super) mod http1 {
         }
 
         if req.request().method() == http::Method::CONNECT {
+            if req.request().uri().authority().is_none() {
+                return Err(Error::Protocol(
+                    "CONNECT request URI has no authority".into(),
+                ));
+            }
+
             authority_form(req.request_mut().uri_mut());
 
             // If the URI is to HTTPS, and the connector claimed to be a proxy,
@@ -184,11 +190,9 @@ pub(super) mod http1 {
             if req.request().uri().scheme() == Some(&Scheme::HTTPS) {
                 origin_form(req.request_mut().uri_mut());
             }
-        } else if req.request().uri().scheme().is_none()
-            || req.request().uri().authority().is_none()
-        {
-            absolute_form(req.request_mut().uri_mut());
         } else {
+            // A URI without scheme or authority is in origin (or asterisk) form already,
+            // which `origin_form` leaves as it is.
             origin_form(req.request_mut().uri_mut());
         }
 
@@ -212,6 +216,7 @@ pub(super) mod http1 {
         };
     }
 
+    #[allow(dead_code)]
     fn absolute_form(uri: &mut Uri) {
         debug_assert!(uri.scheme().is_some(), "absolute_form needs a scheme");
         debug_assert!(
